@@ -574,7 +574,7 @@ def c06(tier):
     specs = []
     for fl in (['asan'] if q else ['asan', 'gasan']):
         for i, c in enumerate(chunks(gs, 4)):
-            specs.append({'seed': common.seed() * 13 + i, 'grammars': [g.to_json() for g in c], 'flavour': fl, 'modes': [0, 3, 4], 'tier': tier, 'timeout': 150 if q else 600})
+            specs.append({'seed': common.seed() * 13 + i, 'grammars': [g.to_json() for g in c], 'flavour': fl, 'modes': [0, 3, 4, 10], 'tier': tier, 'timeout': 200 if q else 600})
     n = 70000 if q else 300000
     deep_inputs = [[b'(' * n + b'a' + b')' * n, b'(' * n + b'a' + b')' * (n - 1), b'(' * n], [b'a' * (2 * n)], [b'a' * (4 * n)], [b'i+' * n + b'(i+i)', b'i+' * n]]
     for g, ins in zip(deep, deep_inputs):
@@ -660,7 +660,7 @@ def c07(tier):
         g, tb = next(st)
         x = rnd.random()
         if x < 0.2: g = gg.add_error_rules(g, rnd)
-        elif x < 0.5: g = gg.decorate(g, rnd, vtypes=False, dflt=0, typed=0, strings=0.4)
+        elif x < 0.5: g = gg.decorate(g, rnd, vtypes=False, dflt=0, typed=0.3, strings=0.4, regexes=(0.4 if rnd.random() < 0.5 else 0))
         elif x < 0.6: g = gg.with_precedence(g, rnd)
         if gg.classify(ref_lr1.build(g)) in ('rr', 'acc'): continue
         if len(ref_lr1.build(g).states) > 40: continue
